@@ -140,7 +140,24 @@ def h_faithful(variant):
 
 
 DIMS = {'ike_algs': ('algs',), 'ike_id': ('id',), 'ipsec_algs': ('algs',), 'ipsec_misc': ('misc',)}
-KINDS = ('missing', 'none', 'true', 'int', 'numstr', 'str', 'empty', 'list', 'dict', 'float', 'list_of_int', 'list_of_unknown')
+KINDS = ('missing', 'none', 'true', 'int', 'numstr', 'str', 'empty', 'list', 'dict', 'float', 'list_of_int', 'list_of_unknown',
+         'pem_rsa_priv', 'pem_rsa_pub', 'pem_ec_priv', 'pem_ec_pub', 'pem_ed25519_priv', 'pem_ed25519_pub', 'pem_truncated')
+_PEMS = {}
+
+
+def pems():
+    """well-formed PEM keys of several kinds (generated once per process with the cryptography library)"""
+    if not _PEMS:
+        from cryptography.hazmat.primitives import serialization as ser
+        from cryptography.hazmat.primitives.asymmetric import rsa, ec, ed25519
+        def priv(k):
+            return k.private_bytes(ser.Encoding.PEM, ser.PrivateFormat.PKCS8, ser.NoEncryption()).decode()
+        def pub(k):
+            return k.public_key().public_bytes(ser.Encoding.PEM, ser.PublicFormat.SubjectPublicKeyInfo).decode()
+        r, e, d = rsa.generate_private_key(65537, 1024), ec.generate_private_key(ec.SECP256R1()), ed25519.Ed25519PrivateKey.generate()
+        _PEMS.update(pem_rsa_priv=priv(r), pem_rsa_pub=pub(r), pem_ec_priv=priv(e), pem_ec_pub=pub(e), pem_ed25519_priv=priv(d), pem_ed25519_pub=pub(d))
+        _PEMS['pem_truncated'] = _PEMS['pem_rsa_priv'][:200]
+    return _PEMS
 
 
 def kind_value(eng, kind, name):
@@ -149,6 +166,9 @@ def kind_value(eng, kind, name):
     if kind == 'true':
         return True
     if kind == 'int':
+        if name.endswith(('subnet', 'addr', '.id')):
+            # the stdlib address constructors take integers through C-level type checks: a finite family instead of a symbolic value
+            return choose(eng, f'{name}.intchoice', [-1, 0, 7, 2 ** 32 - 1, 2 ** 32, 2 ** 128])
         return eng.sym_int(f'{name}.int', -2 ** 31, 2 ** 31)
     if kind == 'numstr':
         return '17'
@@ -166,6 +186,8 @@ def kind_value(eng, kind, name):
         return [7]
     if kind == 'list_of_unknown':
         return ['rot13', None]
+    if kind.startswith('pem_'):
+        return pems()[kind]
     raise ValueError(kind)
 
 
@@ -247,6 +269,49 @@ def h_reject(n_mut, listen_kind):
     return ['reject', 'loaded']
 
 
+E1 = {'index': 5, 'ip_proto': 'udp', 'mode': 'transport', 'lifetime': 77, 'my_port': 1111, 'peer_port': 2222, 'ipsec_proto': 'ah', 'encr': ['aes128'],
+      'integ': ['sha1'], 'dh': ['ecp384'], 'my_subnet': '198.51.100.0/24', 'peer_subnet': '203.0.113.0/24'}
+E2 = {'index': 6, 'ip_proto': 'tcp', 'mode': 'tunnel', 'lifetime': 99, 'my_port': 3333, 'peer_port': 4444, 'ipsec_proto': 'esp', 'encr': ['aes256'],
+      'integ': ['sha512'], 'dh': ['ecp256'], 'my_subnet': '10.9.0.0/16', 'peer_subnet': '10.8.0.0/16'}
+
+
+def h_entries():
+    """a connection with TWO protect entries; the second one omits an arbitrary key (or all / none): it is loaded exactly as if it were the
+    only entry of the connection - nothing leaks from the entry before it (differential with the loader itself)"""
+    import copy
+    from symx import core
+    from ipaddress import ip_address
+    eng = core.engine()
+    cf = MODS['configuration']
+    omit = choose(eng, 'omitted', ['<none>', '<all>'] + sorted(E2))
+    e2 = {} if omit == '<all>' else {k: v for k, v in E2.items() if k != omit}
+    order = choose(eng, 'first_entry', ['E1', 'E2-full'])
+    d_both, d_alone = base_dict(), base_dict()
+    d_both['conn1']['protect'] = [copy.deepcopy(E1 if order == 'E1' else dict(E2, index=9)), copy.deepcopy(e2)]
+    d_alone['conn1']['protect'] = [copy.deepcopy(e2)]
+    listening = [ip_address('192.0.2.1')]
+    try:
+        both = cf.Configuration(listening, d_both)
+        alone = cf.Configuration(listening, d_alone)
+    except Exception as ex:      # noqa
+        return {'class': ['entries'], 'violation': f'second entry omitting {omit}: loading failed with {type(ex).__name__}: {ex}'}
+    p2 = list(both.ike_configurations.values())[0].protect
+    p1 = list(alone.ike_configurations.values())[0].protect
+    if len(p2) != 2 or len(p1) != 1:
+        return {'class': ['entries'], 'violation': f'{len(p2)} / {len(p1)} protect entries loaded'}
+    a, b = p2[1], p1[0]
+    for f in a._fields:
+        if f == 'index' and 'index' not in e2:
+            continue
+        x, y = getattr(a, f), getattr(b, f)
+        same = (x == y) if f != 'proposal' else ([(int(t.type), int(t.id), t.keylen) for t in x.transforms] == [(int(t.type), int(t.id), t.keylen) for t in y.transforms]
+                                               and x.protocol_id == y.protocol_id)
+        if not same:
+            return {'class': ['entries'], 'violation': f'a protect entry that omits {omit} is loaded with {f} = {x} when it follows another entry, but with {y} '
+                                                       f'when it stands alone (a value leaks from the previous entry)'}
+    return ['entries', omit]
+
+
 RESOLVER = {'one4': ['192.0.2.1'], 'other4': ['192.0.2.77'], 'dual46': ['192.0.2.1', '2001:db8::1'], 'dual64': ['2001:db8::1', '192.0.2.1'],
             'multi': ['192.0.2.77', '192.0.2.1'], 'multi3': ['198.51.100.9', '192.0.2.77', '192.0.2.1'], 'dup': ['192.0.2.1', '192.0.2.1', '192.0.2.77'],
             'nothing': None}
@@ -302,6 +367,7 @@ def h_resolve():
 def build_instances(tier):
     inst = []
     nat = common.native_of
+    inst.append(Instance('second protect entry omitting keys', h_entries, (), native=nat(h_entries), engine_kw={'max_ticks': 10 ** 7}))
     inst.append(Instance('host names, resolver answers and listening sets', h_resolve, (), native=nat(h_resolve), engine_kw={'max_ticks': 10 ** 7},
                          must_reach=[('rejected', lambda o: o == ['resolve', 'ConfigurationError']), ('loaded', lambda o: o == ['resolve', 'loaded'])]))
     for v in ('ike_algs', 'ike_id', 'ipsec_algs', 'ipsec_misc'):
